@@ -162,6 +162,9 @@ func (s *Scanner) init(input string) error {
 			return s.error(s.pos, "no input found after delimiter %q", d)
 		}
 		s.input = parts[1]
+		// Positions are relative to the original input,
+		// count the stripped directive line as scanned.
+		s.total = len(input) - len(s.input)
 	}
 	return nil
 }
